@@ -107,6 +107,9 @@ func hxList(bzs [][]byte) string {
 func guard(f func() string) (ans string) {
 	defer func() {
 		if r := recover(); r != nil {
+			if os.Getenv("VERIF_DEBUG_PANIC") != "" {
+				fmt.Fprintf(os.Stderr, "guard: panic: %v\n", r)
+			}
 			ans = "panic"
 		}
 	}()
